@@ -3,6 +3,7 @@
 From Coq Require Import List NArith Bool Arith.
 Import ListNotations.
 From Verif Require Import Facts_vm_sites CancelM Cancel_proofs.
+From Verif Require Import Facts_vmrun VmRunM VmRun_proofs.
 Close Scope N_scope.
 
 (* Full statement over the model: for every program (finite or not), every
@@ -101,3 +102,14 @@ Example C11_example :
   scenario 0 false false 2 = 2%N /\ scenario 0 false false 1 = 0%N /\ scenario 2 false true 1 = 1%N /\
   scenario 0 true false 2 = 2%N.
 Proof. vm_compute. repeat split. Qed.
+
+(* what VM.Run does with the outcome of runFunc does not depend on the context:
+   a run that a native function ends with env.Stop(err) or env.Fatal(v) returns
+   err / panics with v also when the context is cancelled or expired (the
+   model above says what runFunc returns; this is VM.Run, read from the
+   decision table generated from vm.go) *)
+Theorem C11_stop_fatal_win_over_cancellation :
+  forall ctx, In ctx ctx_states ->
+    run_action 3%N ctx = Some 2%N /\ run_action 2%N ctx = Some 4%N /\ run_action 0%N ctx = Some 1%N /\
+    run_action 1%N ctx = Some 3%N /\ run_action 5%N ctx = Some 6%N.
+Proof. exact vmrun_documented. Qed.
